@@ -14,7 +14,7 @@ from pathlib import Path
 from typing import Any, Dict, List, Optional, Set, Tuple
 
 from .core import AnalysisError, Report
-from .fjfront import (Expr, Macro, NeedConcrete, OpaqueValue, Parser, Stl, base_env, conc, ev, is_const, lex, lin_add)
+from .fjfront import (Expr, Lin, Macro, NeedConcrete, OpaqueValue, Parser, Stl, base_env, conc, ev, is_const, lex, lin_add)
 
 SPEC_DIR = Path(__file__).parent / 'spec'
 
@@ -866,6 +866,334 @@ def rule_ret_restore(rep: Report, stl: Stl, files: List[str]) -> None:
                       f'{m.file}:{m.line} {m.name}', expected='an even number: set, then restored')
 
 
+# ---------------------------------------------------------------- FJ.JW-RESTORE (a borrowed jump word is given back on every path)
+
+def rule_jumpword_restore(rep: Report, stl: Stl, prop: str, files: List[str], floor: int) -> None:
+    rule = f'{prop}.JW-RESTORE'
+    rep.rule(rule, 'a macro that points the jump word of an operand cell (`wflip <param>+w, <local label>`) into its own code - the '
+             'switch-table idiom: jumping to the cell then lands in the table at the cell\'s value - gives the jump word back (the same '
+             'wflip again) on EVERY path before control leaves the macro (a jump to a label parameter, or the end of the macro): '
+             'typestate over the macro\'s own control-flow graph (raw ops, wflips, label arguments of calls and reps as branch '
+             'targets, table entries as the successors of the indexed jump)', floor)
+    for key, m in sorted(stl.macros.items()):
+        if m.file not in files:
+            continue
+        body = m.body
+        locs, params = set(m.local), set(m.params)
+        sets = []
+        for i, op in enumerate(body):
+            if op[0] == 'wflip':
+                a = op[1]
+                ids = _expr_ids(a[0], set()) - {'w', 'dw', 'dbit'}
+                vids = _expr_ids(a[1], set())
+                if len(ids) == 1 and ids <= params and vids and vids <= locs:
+                    sets.append((repr(a[0]), repr(a[1]), next(iter(ids)), next(iter(vids))))
+        if not sets:
+            continue
+        jumped_to = set()
+        for op in body:
+            if op[0] == 'fj' and op[2] is not None:
+                jumped_to |= _expr_ids(op[2], set())
+            if op[0] == 'wflip' and len(op[1]) > 2:
+                jumped_to |= _expr_ids(op[1][2], set())
+        # only the switch-table idiom: the macro itself jumps to the cell. (stl.fcall points ret_reg at its return label and
+        # leaves to the callee on purpose - the callee comes back through the cell.)
+        borrowed = sorted({(a, v, p_, l) for a, v, p_, l in sets if p_ in jumped_to})
+        if not borrowed:
+            continue
+        # statement graph
+        stmt_idx = [i for i, op in enumerate(body) if op[0] != 'label']
+        label_at: Dict[str, int] = {}
+        for i, op in enumerate(body):
+            if op[0] == 'label':
+                nxt = [j for j in stmt_idx if j > i]
+                label_at[op[1].split('.')[-1]] = nxt[0] if nxt else -1        # -1: the end of the macro
+        END = -1
+
+        def nxt_of(i: int) -> int:
+            later = [j for j in stmt_idx if j > i]
+            return later[0] if later else END
+
+        def target(e: Any) -> List[Any]:
+            return target_with(e, {})
+
+        def target_with(e: Any, extra: Dict[str, int]) -> List[Any]:
+            """successors named by a jump expression: statement indices, ('exit', param) or END"""
+            ids = _expr_ids(e, set()) - {'w', 'dw', 'dbit'} - set(extra)
+            if not ids:
+                return [('exit', '<absolute>')]
+            if ids & params:
+                pl = sorted(ids & params)
+                return [('exit', pl[0])]
+            lab = [x for x in ids if x in label_at]
+            if len(lab) == 1 and len(ids) == 1:
+                base = label_at[lab[0]]
+                if base == END:
+                    return [END]
+                # label + k*dw: the k-th following statement (table entries are one op each)
+                try:
+                    off = conc(lin_add(ev(e, {**base_env(64), **extra, lab[0]: 0}), {'': 0}, 1))
+                    k = off // 128
+                except Exception:
+                    k = 0
+                later = [j for j in stmt_idx if j >= base]
+                # walk the following statements by their size in ops: a raw op / wflip is 1, a rep of stl.fj is its count, a
+                # `*table*` macro call with a constant first argument is that many entries; k lands inside one of them
+                pos = 0
+                for j in later:
+                    opj = body[j]
+                    size = 1
+                    try:
+                        if opj[0] == 'rep':
+                            size = max(conc(ev(opj[1], base_env(64))), 1)
+                        elif opj[0] == 'call' and 'table' in opj[1] and opj[2]:
+                            size = max(conc(ev(opj[2][0], base_env(64))), 1)
+                    except Exception:
+                        size = 1
+                    if pos <= k < pos + size:
+                        return [j]
+                    pos += size
+                return [later[-1]] if later and k >= 0 else [END]
+            return [('exit', '<global>')]        # a jump to code outside the macro
+
+        def table_nodes(label: str) -> List[int]:
+            base = label_at.get(label, END)
+            out: List[int] = []
+            for j in [x for x in stmt_idx if x >= base and base != END][:16]:
+                if body[j][0] == 'rep':
+                    out.append(j)
+                    break
+                out.append(j)
+            return out
+
+        def succs(i: int, state: frozenset) -> List[Any]:
+            op = body[i]
+            if op[0] == 'fj':
+                return target(op[2]) if op[2] is not None else [nxt_of(i)]
+            if op[0] == 'wflip':
+                a = op[1]
+                if len(a) < 3:
+                    return [nxt_of(i)]
+                tids = _expr_ids(a[2], set())
+                # the indexed jump: jumping to the operand cell whose jump word points at a table
+                for (ad, v, p_, l) in borrowed:
+                    if tids == {p_} and (ad, v) in state:
+                        return table_nodes(l)
+                return target(a[2])
+            if op[0] in ('call', 'rep') and (op[1] if op[0] == 'call' else op[3]) == 'stl.fj' and len(op[2] if op[0] == 'call' else op[4]) == 2:
+                # `stl.fj flip, jump` is a raw op: it always jumps (a rep of it is a table: one entry per index)
+                jexpr = (op[2] if op[0] == 'call' else op[4])[1]
+                if op[0] == 'call':
+                    return target(jexpr)
+                try:
+                    cnt = conc(ev(op[1], base_env(64)))
+                except Exception:
+                    cnt = 1
+                outs: List[Any] = []
+                for it in range(max(cnt, 1)):
+                    for t in target_with(jexpr, {op[2]: it}):
+                        if t not in outs:
+                            outs.append(t)
+                return outs
+            if op[0] in ('call', 'rep'):
+                args = op[2] if op[0] == 'call' else op[4]
+                out: List[Any] = [nxt_of(i)]
+                for a in args:
+                    ids = _expr_ids(a, set()) - {'w', 'dw', 'dbit'}
+                    if len(ids) == 1 and next(iter(ids)) in label_at and not (ids & params):
+                        out += target(a)
+                    elif ids and ids <= params:
+                        # a label parameter handed on to a callee is a possible way out - only when the macro's own parameter is used
+                        # as a jump target somewhere (i.e. it IS a label parameter)
+                        if next(iter(ids)) in label_params:
+                            out.append(('exit', next(iter(ids))))
+                    # jumping to a borrowed cell through a callee (rare): not modelled
+                return out
+            return [nxt_of(i)]
+        label_params = set()
+        for op in body:
+            if op[0] == 'fj' and op[2] is not None:
+                label_params |= _expr_ids(op[2], set()) & params
+            if op[0] == 'wflip' and len(op[1]) > 2:
+                label_params |= _expr_ids(op[1][2], set()) & params
+        label_params -= {p_ for _, _, p_, _ in borrowed}
+        start = stmt_idx[0] if stmt_idx else END
+        seen: Set[Tuple[int, frozenset]] = set()
+        work: List[Tuple[int, frozenset]] = [(start, frozenset())]
+        bad: List[str] = []
+        steps = 0
+        while work and steps < 20000:
+            steps += 1
+            i, st = work.pop()
+            if (i, st) in seen:
+                continue
+            seen.add((i, st))
+            if i == END:
+                if st:
+                    bad.append(f'the end of the macro is reached with the jump word of {sorted(p_ for a, v, p_, l in borrowed if (a, v) in st)} still borrowed')
+                continue
+            op = body[i]
+            st2 = st
+            if op[0] == 'wflip':
+                k = (repr(op[1][0]), repr(op[1][1]))
+                if any(k == (a, v) for a, v, _, _ in borrowed):
+                    st2 = st - {k} if k in st else st | {k}
+            # the indexed jump is taken in the state AFTER this wflip toggled the borrow
+            for t in succs(i, st2):
+                if isinstance(t, tuple):
+                    if st2:
+                        bad.append(f'line {op[-1]}: control leaves to `{t[1]}` with the jump word of '
+                                   f'{sorted(p_ for a, v, p_, l in borrowed if (a, v) in st2)} still pointing into the macro')
+                else:
+                    work.append((t, st2))
+        for (a, v, p_, l) in borrowed:
+            mine = sorted({b for b in bad if f"'{p_}'" in b or f'[{p_!r}]' in b or p_ in b})
+            rep.check(not mine, rule, f'{key[0]}/{key[1]}:{p_}+w -> {l}', mine[0] if mine else f'restored on every path ({len(seen)} states explored)',
+                      f'{m.file}:{m.line} {m.name}', expected='the same wflip again before any exit')
+
+
+# ---------------------------------------------------------------- FJ.SNAPSHOT (inputs are sampled before any input is modified in place)
+
+def rule_snapshot_order(rep: Report, stl: Stl, prop: str, files: List[str], floor: int, w: int = 64) -> None:
+    rule = f'{prop}.SNAPSHOT'
+    rep.rule(rule, 'a macro that temporarily modifies its INPUT operands in place (an operand its documentation only reads, e.g. the sign '
+             'normalisation `neg n, a` ... `neg n, a` of the signed divisions) and keeps samples of input cells in local cells (a statement '
+             'whose documented effect assigns a local label from a parameter) takes every sample before the first in-place write of any '
+             'OTHER input of the same documented extent: nothing in the documentation forbids passing one variable for both, and a sample '
+             'taken after the write would then see the modified value. Statement order of the macro body; effects from the callee doc formulas', floor)
+    for key, m in sorted(stl.macros.items()):
+        if m.file not in files:
+            continue
+        ext = doc_extents(m)
+        env: Dict[str, Any] = base_env(w)
+        for p in m.params:
+            if p not in ext:
+                env[p] = 4
+        de = doc_effects(m)
+        dests = {k for k, c in de.items() if c in ('assign', 'update')}
+        hazards = {frozenset((a, b)) for _, a, b in doc_alias_hazards(m)}
+        labels = set(m.local) | set(m.params)
+        written: List[Tuple[str, int]] = []
+        samples: List[Tuple[str, str, int, List[Tuple[str, int]]]] = []
+        for op in m.body:
+            if op[0] not in ('call', 'rep'):
+                continue
+            try:
+                eff = _effect_on(stl, op, labels, env)
+            except (NeedConcrete, OpaqueValue, AnalysisError):
+                continue
+            locs = [L for L, c in eff.items() if L in m.local and c == 'assign']
+            reads = [L for L, c in eff.items() if L in m.params and c == 'read' and L not in dests and L in ext]
+            for p in reads if locs else []:
+                prior = [(q, l) for q, l in written if q != p and ext.get(q) == ext.get(p) and frozenset((p, q)) not in hazards]
+                samples.append((locs[0], p, op[-1], prior))
+            for L, c in eff.items():
+                if L in m.params and c in ('assign', 'update') and L not in dests and L in ext:
+                    written.append((L, op[-1]))
+        if not written:
+            continue
+        for loc, p, line, prior in samples:
+            rep.check(not prior, rule, f'{key[0]}/{key[1]}:{loc} <- {p}',
+                      (f'line {line} samples `{p}` into `{loc}` after line {prior[0][1]} already modified the input `{prior[0][0]}` in place: '
+                       f'with {p} and {prior[0][0]} the same variable the sample reads the modified value') if prior
+                      else f'sampled at line {line}, before the first in-place write of another input (line {written[0][1]})',
+                      f'{m.file}:{line} {m.name}', expected='all samples precede the first in-place write of an input')
+
+
+# ---------------------------------------------------------------- FJ.CONST-FITS (constants written into fixed-width vectors)
+
+# (macro, arity) -> (radix, index of the width argument or None for one cell, index of the value argument)
+CONST_WRITERS = {('hex.set', 3): (16, 0, 2), ('hex.set', 2): (16, None, 1), ('hex.vec', 2): (16, 0, 1), ('hex.hex', 1): (16, None, 0),
+                 ('bit.vec', 2): (2, 0, 1), ('bit.bit', 1): (2, None, 0)}
+SIGN_TESTS = {('hex.sign', 4): (16, 0, 1)}
+DECREMENTS = {('hex.dec', 2): 1, ('bit.dec', 2): 1}
+FIT_SAMPLES = tuple(range(1, 70)) + (100, 127, 128, 129, 200, 255, 256, 257)
+
+
+def rule_const_fits(rep: Report, stl: Stl, prop: str, files: List[str], floor: int, w: int = 64) -> None:
+    rule = f'{prop}.CONST-FITS'
+    rep.rule(rule, 'the library writes an assembly-time constant V into a K-digit vector by emitting digit i as (V >> (i*bits)) & mask, which '
+             'silently drops what does not fit. Every such site (hex.set / hex.vec / hex.hex / bit.vec / bit.bit with both K and V '
+             f'assembly-time values of the enclosing macro\'s size parameters) satisfies -radix^K/2 <= V < radix^K for every sampled size '
+             f'(1..69, 100, 127..129, 200, 255..257); when the same local vector is later tested with `sign` - a loop counter counting down to '
+             '-1 - the value additionally leaves the sign bit free: V (minus one when every sign test directly follows a `dec` of that vector) '
+             '< radix^K/2', floor)
+    for key in list(CONST_WRITERS) + list(SIGN_TESTS) + list(DECREMENTS):
+        if key not in stl.macros:
+            raise AnalysisError(f'{rule}: the library no longer defines {key[0]}/{key[1]}; the writer table of this rule is stale')
+    for key, m in sorted(stl.macros.items()):
+        if m.file not in files:
+            continue
+        body = m.body
+        stmts = [op for op in body if op[0] != 'label']
+        for si, op in enumerate(body):
+            if op[0] == 'call':
+                name, args, it = op[1], op[2], None
+            elif op[0] == 'rep':
+                name, args, it = op[3], op[4], op[2]
+            else:
+                continue
+            tab = CONST_WRITERS.get((name, len(args)))
+            if tab is None:
+                continue
+            radix, ki, vi = tab
+            names = sorted((_expr_ids(args[vi], set()) | (_expr_ids(args[ki], set()) if ki is not None else set())) & set(m.params))
+            if len(names) > 2:
+                continue
+            vparams = _expr_ids(args[vi], set()) & set(m.params)
+            kparams = (_expr_ids(args[ki], set()) if ki is not None else set()) & set(m.params)
+            if vparams - kparams:
+                continue            # the value is the caller's data (an operand, not a size): nothing to judge at this site
+            # is the target a local vector that the macro sign-tests ?
+            target = None
+            if (name, len(args)) in (('hex.set', 3), ('hex.set', 2)):
+                ids = _expr_ids(args[1 if len(args) == 3 else 0], set())
+                if len(ids) == 1 and next(iter(ids)) in m.local:
+                    target = next(iter(ids))
+            else:
+                # a declaration: the label directly in front of it
+                if si > 0 and body[si - 1][0] == 'label':
+                    target = body[si - 1][1].split('.')[-1]
+            signed, slack = False, 1
+            if target is not None:
+                for sj, op2 in enumerate(stmts):
+                    if op2[0] == 'call' and (op2[1], len(op2[2])) in SIGN_TESTS and _expr_ids(op2[2][1], set()) == {target}:
+                        signed = True
+                        prev = stmts[sj - 1] if sj else None
+                        pj = body.index(op2)
+                        after_dec = (prev is not None and prev[0] == 'call' and (prev[1], len(prev[2])) in DECREMENTS
+                                     and _expr_ids(prev[2][1], set()) == {target} and body[pj - 1] is prev)
+                        if not after_dec:
+                            slack = 0
+            evaluated, bad = 0, []
+            for combo in itertools.product(*[FIT_SAMPLES for _ in names]):
+                env: Dict[str, Any] = base_env(w)
+                env.update(dict(zip(names, combo)))
+                if it is not None:
+                    env[it] = 0
+                try:
+                    K = conc(ev(args[ki], env)) if ki is not None else 1
+                    V = conc(ev(args[vi], env))
+                except (NeedConcrete, OpaqueValue, AnalysisError, ZeroDivisionError):
+                    continue
+                if K <= 0:
+                    continue
+                evaluated += 1
+                top = radix ** K
+                if not (-(top // 2) <= V < top):
+                    bad.append(f'{dict(zip(names, combo))}: value {V} does not fit {K} radix-{radix} digit(s)')
+                elif signed and not (V - slack < top // 2):
+                    bad.append(f'{dict(zip(names, combo))}: counter `{target}` starts at {V} in {K} radix-{radix} digit(s) and is tested with '
+                               f'`sign`: {V - slack} already reads as negative, so the loop leaves early')
+                if len(bad) >= 3:
+                    break
+            if not evaluated:
+                continue
+            rep.check(not bad, rule, f'{key[0]}/{key[1]}:{name}/{len(args)}@{target or "-"}',
+                      bad[0] if bad else f'{evaluated} instantiations fit' + (' with the sign bit free' if signed else ''),
+                      f'{m.file}:{op[-1]} {m.name}', expected='the constant fits the declared width')
+
+
 # ---------------------------------------------------------------- FJ.SP / FJ.PTR-STRIDE (C08)
 
 SP = 'hex.pointers.sp'
@@ -1142,6 +1470,34 @@ BITORDER_SITES = [
 ]
 
 
+def _call_sequence(m: Macro, env: Dict[str, Any]) -> List[Tuple[str, List[Lin], int]]:
+    """the macro applications of a body in emission order, reps unrolled for the concrete sizes of env: (callee, linear forms of
+    the arguments that evaluate, line). `rep(2, i) .output x+i*dw` and `.output x` / `.output x+dw` give the same sequence."""
+    out: List[Tuple[str, List[Lin], int]] = []
+
+    def args_of(args: List[Any], e: Dict[str, Any]) -> List[Lin]:
+        res = []
+        for a in args:
+            try:
+                res.append(ev(a, e))
+            except (NeedConcrete, OpaqueValue, AnalysisError):
+                res.append({'?': 1})
+        return res
+    for op in m.body:
+        if op[0] == 'call':
+            out.append((op[1], args_of(op[2], env), op[-1]))
+        elif op[0] == 'rep':
+            try:
+                cnt = conc(ev(op[1], env))
+            except (NeedConcrete, OpaqueValue, AnalysisError):
+                continue
+            for i in range(max(cnt, 0)):
+                e2 = dict(env)
+                e2[op[2]] = i
+                out.append((op[3], args_of(op[4], e2), op[-1]))
+    return out
+
+
 def rule_bitorder(rep: Report, stl: Stl, w: int = 64) -> None:
     rule = 'C09.BITORDER'
     rep.rule(rule, 'the raw IO macros documented "lsb first" walk bits/bytes in ascending order: the i-th emitted/consumed unit is unit i '
@@ -1150,27 +1506,27 @@ def rule_bitorder(rep: Report, stl: Stl, w: int = 64) -> None:
         m = stl.macros.get((name, ar))
         if m is None:
             raise AnalysisError(f'{rule}: {name}/{ar} missing')
-        reps = [op for op in m.body if op[0] == 'rep' and op[3] == callee]
-        if len(reps) != 1:
-            raise AnalysisError(f'{rule}: {name}/{ar} no longer has exactly one rep of {callee}')
-        op = reps[0]
-        it = op[2]
-        site = f'{m.file}:{op[5]} {m.name}'
         ok, detail = False, ''
         if kind == 'addr':
+            # the units in emission order, however the macro spells the walk (a rep, or the calls written out)
             env = dict(base_env(w))
             for p in m.params:
                 env[p] = {p: 1}
             env['n'] = 3
-            offs = []
-            for i in range(3):
-                e2 = dict(env)
-                e2[it] = i
-                lf = ev(op[4][0], e2)
-                offs.append(lf.get('', 0))
-            ok = offs == [0, k * 2 * w, 2 * k * 2 * w]
-            detail = f'offsets for i=0,1,2: {offs}'
+            seq = [(nm, a) for nm, a, _ in _call_sequence(m, env) if nm == callee]
+            site = f'{m.file}:{m.line} {m.name}'
+            if len(seq) < 2:
+                raise AnalysisError(f'{rule}: {name}/{ar} no longer applies {callee} to at least two units')
+            offs = [a[-1].get('', 0) if a else None for _, a in seq]
+            ok = offs == [i * k * 2 * w for i in range(len(seq))]
+            detail = f'offsets of the {len(seq)} units in order: {offs}'
         else:
+            reps = [op for op in m.body if op[0] == 'rep' and op[3] == callee]
+            if len(reps) != 1:
+                raise AnalysisError(f'{rule}: {name}/{ar} no longer has exactly one rep of {callee}')
+            op = reps[0]
+            it = op[2]
+            site = f'{m.file}:{op[5]} {m.name}'
             e = op[4][0]
             # (v >> (k*i)) & mask
             ok = isinstance(e, tuple) and e[0] == '&' and isinstance(e[1], tuple) and e[1][0] == '>>' and e[1][1][0] == 'id'
@@ -1186,7 +1542,7 @@ def rule_bitorder(rep: Report, stl: Stl, w: int = 64) -> None:
         rep.check(ok, rule, f'{name}/{ar}', detail, site, expected='ascending (lsb / low byte first)')
     for name in ('hex.print', 'hex.input'):
         m = stl.macros[(name, 1)]
-        seq = [(op[1], ev(op[2][0], {**base_env(w), m.params[0]: {m.params[0]: 1}}).get('', 0)) for op in m.body if op[0] == 'call']
+        seq = [(nm, a[0].get('', 0)) for nm, a, _ in _call_sequence(m, {**base_env(w), m.params[0]: {m.params[0]: 1}}) if a]
         rep.check([o for _, o in seq] == [0, 2 * w], rule, f'{name}/1', str(seq), f'{m.file}:{m.line}', expected='low hex (offset 0) then high hex (offset dw)')
     # the multi-byte bit input is documented little endian but walks the cells in descending order
     m = stl.macros[('bit.input', 2)]
